@@ -26,7 +26,47 @@ func init() {
 		Jobs:    c01Jobs,
 		Oracle:  c01Oracle,
 		Outcome: getOutcome,
+		Seq:     c01Seq,
 	})
+}
+
+// c01Seq: explicit-state search over single-client histories on keys engineered to collide on
+// the primary hash (1 and 2) plus a third key, with TTLs, clock advances and sweeps and every
+// applier lag: multi-step sequences (expired-but-unswept entries, tombstones overtaking Sets,
+// slot take-over) that the two-thread DFS scenarios do not reach.
+func c01Seq(tier string) []SeqJob {
+	var out []SeqJob
+	mk := func(name string, hash string, keys []int, depth int, secs float64) {
+		var alpha []Op
+		for _, k := range keys {
+			alpha = append(alpha, Op{K: "set", Key: k, Cost: 1}, Op{K: "get", Key: k}, Op{K: "del", Key: k}, Op{K: "setttl", Key: k, Cost: 1, TTL: 1000})
+		}
+		alpha = append(alpha, Op{K: "advance", N: 2000}, Op{K: "sweep"})
+		spec := &SeqSpec{Cfg: Cfg{NumCounters: 16, MaxCost: 3, BufferItems: 2, SetBuf: 3, KeyHash: hash, TTLTick: 2, BucketSecs: 1}, MaxDepth: depth,
+			Alphabet: func(r *SeqRun) []Op { return alpha },
+			Oracle: func(r *SeqRun) []Viol {
+				return append(provenance(r.Events, "C01"), servedAfterExit(r.Events, "C01")...)
+			},
+			// white-box: what Get WOULD return for every key of the alphabet is judged through real
+			// Gets issued by the probe at every state (they do not feed back into the search state,
+			// which was snapshotted before)
+			Probe: func(c seqCache, r *SeqRun) {
+				for _, k := range keys {
+					runOp(c, Op{K: "get", Key: k})
+				}
+			},
+		}
+		out = append(out, SeqJob{Name: name, Spec: spec, Seconds: secs})
+	}
+	if tier == "quick" {
+		mk("seq/collide/keys1,2/depth6", "collide", []int{1, 2}, 6, 40)
+		mk("seq/collide/keys1,2,3/depth5", "collide", []int{1, 2, 3}, 5, 40)
+	} else {
+		mk("seq/collide/keys1,2/depth9", "collide", []int{1, 2}, 9, 560)
+		mk("seq/collide/keys1,2,3/depth7", "collide", []int{1, 2, 3}, 7, 560)
+		mk("seq/default-hash/keys1,257/depth8", "", []int{1, 257}, 8, 560)
+	}
+	return out
 }
 
 func c01Oracle(x *Exec, res *vsched.Result, job *Job) []Viol {
@@ -135,7 +175,7 @@ func c01Jobs(tier string) []Job {
 	coll := small
 	coll.KeyHash = "collide"
 	coll.MaxCost = 3
-	progsB := [][]Op{{set(1), get(2)}, {set(2), get(1)}, {del(2), get(1)}, {get(1), get(2)}, {set(2), get(2)}, {setttl(2), del(1)}}
+	progsB := [][]Op{{set(1), get(2)}, {set(2), get(1)}, {del(2), get(1)}, {get(1), get(2)}, {set(2), get(2)}, {setttl(2), del(1)}, {del(1), set(2)}}
 	for i, a := range progsB {
 		for j, b := range progsB {
 			if j < i {
